@@ -264,6 +264,30 @@ def run(tier):
         sets[1]["name"], sets[1]["value"] = n, v
         [o for o in sc["ops"] if o["op"] == "set_mathml"][0]["mathml"] = STRESS
         scripts.append(sc)
+    # integers of every length 1..41 and around the sizes of the languages' large-number word tables (3 x 11, 3 x 45 digits), as
+    # exponent, root index and denominator - the positions the rules speak through ToOrdinal() / the number-to-words tables, whose
+    # guards are arithmetic on the number of digits
+    lengths = list(range(1, 42)) + [45, 60, 100, 134, 135, 136, 137, 138, 139, 200]
+    shapes = ["<math><msup><mi>x</mi><mn>{}</mn></msup></math>", "<math><mroot><mi>x</mi><mn>{}</mn></mroot></math>", "<math><mfrac><mn>3</mn><mn>{}</mn></mfrac><mo>+</mo><msub><mi>a</mi><mn>{}</mn></msub></math>"]
+    sweep_langs = ["en", "sv"] + (random.Random(C.seed() * 3).sample([l for l in S.languages() if l not in ("en", "sv") and not l.startswith("zz")], 2) if tier == "quick"
+                                  else [l for l in S.languages() if l not in ("en", "sv")])
+    for lang in sweep_langs:
+        for style in ("ClearSpeak", "SimpleSpeak"):
+            for shape in shapes:
+                beh = [("set_preference", "knownStr:valid")] * 2
+                for _ in lengths:
+                    beh += [("set_mathml", "valid"), ("get_spoken_text", "-"), ("get_overview_text", "-"), ("do_navigate_command", "zoom")]
+                sc = build_script(beh, [p_ for p_ in PREFIXES if p_[0] == "rules"][0], random.Random(1), f"digits:{lang}:{style}:{shapes.index(shape)}")
+                sets = [o for o in sc["ops"] if o["op"] == "set_pref"]
+                sets[0]["name"], sets[0]["value"] = "Language", lang
+                sets[1]["name"], sets[1]["value"] = "SpeechStyle", style
+                body = [o for o in sc["ops"] if o["op"] == "set_mathml"][:len(lengths)]
+                for o, n_ in zip(body, lengths):
+                    o["mathml"] = shape.replace("{}", ("1234567890" * 20)[:n_])
+                for o in sc["ops"]:
+                    if o["op"] == "nav_cmd" and o is not sc["ops"][-1]:
+                        o["cmd"] = "ZoomIn"
+                scripts.append(sc)
     # fresh reference sessions for the recovery probe under the default preferences
     scripts.append(build_script([], PREFIXES[0], rng, "fresh"))
     results = C.run_mcv([{"id": s["id"], "ops": s["ops"]} for s in scripts], wd, timeout_ms=20000, stack_mb=8)
